@@ -633,7 +633,7 @@ package mpb
 //@ func (priorityQueue).Swap
 //@   props    C06 C05 C02
 //@   requires 0 <= i && i < len(pq) && 0 <= j && j < len(pq) && pq[i] != nil && pq[j] != nil && (i != j ==> pq[i] != pq[j])
-//@   modifies elems(Int), Bar.index
+//@   modifies elems("*Bar"), Bar.index
 //@   ensures  swapped: pq[i] == old(pq[j]) && pq[j] == old(pq[i])
 //@   ensures  others: forall(k, 0, len(pq), k != i && k != j ==> pq[k] == old(pq[k]))
 //@   ensures  index: pq[i].index == i && pq[j].index == j
@@ -641,7 +641,7 @@ package mpb
 //@ func (*priorityQueue).Push
 //@   props    C06 C05 C02
 //@   requires pq != nil && hasType(x, "*Bar") && unboxAs(x, "*Bar") != nil
-//@   modifies mem(Slice), elems(Int), Bar.index
+//@   modifies mem("priorityQueue"), elems("*Bar"), Bar.index
 //@   ensures  grown: len(deref(pq)) == old(len(deref(pq))) + 1
 //@   ensures  last: deref(pq)[old(len(deref(pq)))] == unboxAs(x, "*Bar") && unboxAs(x, "*Bar").index == old(len(deref(pq)))
 //@   ensures  prefix: forall(k, 0, old(len(deref(pq))), deref(pq)[k] == old(deref(pq)[k]))
@@ -649,7 +649,7 @@ package mpb
 //@ func (*priorityQueue).Pop
 //@   props    C06 C05 C02
 //@   requires pq != nil && len(deref(pq)) >= 1 && deref(pq)[len(deref(pq)) - 1] != nil
-//@   modifies mem(Slice), elems(Int), Bar.index
+//@   modifies mem("priorityQueue"), elems("*Bar"), Bar.index
 //@   ensures  shrunk: len(deref(pq)) == old(len(deref(pq))) - 1
 //@   ensures  popped: hasType(result, "*Bar") && unboxAs(result, "*Bar") == old(deref(pq)[len(deref(pq)) - 1]) && unboxAs(result, "*Bar").index == -1
 //@   ensures  prefix: forall(k, 0, len(deref(pq)), deref(pq)[k] == old(deref(pq)[k]))
@@ -786,3 +786,76 @@ package mpb
 //@   loop 6   invariant data.iter == unboxAs(req.data, "iterData").iter && data.drop == unboxAs(req.data, "iterData").drop && data.iterPop == unboxAs(req.data, "iterData").iterPop
 //@   loop 6   ensures delivered@C05: sent(data.iterPop) == iter(sent(data.iterPop)) + 1 && lastSent(data.iterPop) == bar && len(bHeap) == iter(len(bHeap)) - 1 && !inheap(bar)
 //@   loop 6   ensures order@C06: iter(hord()) ==> bar.priority <= iter(hbound()) && hbound() == bar.priority && hord()
+
+// ---------------------------------------------------------------------------------------
+// container state
+
+//@ typeinv pState props C02 C05 self.hm != nil && self.iterDrop != nil && self.renderReq != nil && self.queueBars != nil && self.ctx != nil
+
+// Bars and frames arriving at flush: the heap manager hands out non-nil bars (run, loop 6:
+// popped elements of a well-formed queue), render sends a non-nil frame (Bar.render$1).
+//@ chan flush.iter assume v != nil
+//@ chan Bar.frameCh invariant v != nil
+
+//@ func (*pState).flush
+//@   props    C03 C04 C05 C06 C13 C15 C17 C18 C02
+//@   requires s != nil && cw != nil && !closed(s.hm) && !closed(s.iterDrop) && height >= 0 && height <= 1<<31
+//@   requires wkey(cw.out) != cw.Buffer && s.popPriority < 1<<61
+//@   requires parked: forall(k, has(s.queueBars, k) ==> s.queueBars[k] != nil)
+//@   loop 1   invariant forall(k, has(s.queueBars, k) ==> s.queueBars[k] != nil)
+//@   loop 1   invariant len(rows) <= height && popCount >= 0 && popCount <= len(rows) && len(pushes) >= 0 && !closed(s.hm) && !closed(s.iterDrop)
+//@   loop 1   invariant forall(k, 0, len(pushes), pushes[k].bar != nil) && s.popPriority < 1<<61 + len(pushes)
+//@   loop 1   invariant called("(*Writer).Flush") == old(called("(*Writer).Flush")) && called("(heapManager).push") == old(called("(heapManager).push"))
+//@   loop 1   ensures atmost@C05: len(pushes) == iter(len(pushes)) || len(pushes) == iter(len(pushes)) + 1
+//@   loop 1   ensures normal@C05: frame.shutdown != 1 && frame.shutdown != 2
+//@              ==> len(pushes) == iter(len(pushes)) + 1 && pushes[len(pushes) - 1].bar == b && !pushes[len(pushes) - 1].sync
+//@   loop 1   ensures popped@C18,C05: frame.shutdown == 2 && s.popCompleted && !frame.noPop
+//@              ==> len(pushes) == iter(len(pushes)) && popCount == iter(popCount) + usedRows
+//@   loop 1   ensures kept@C18,C05: frame.shutdown == 2 && !(s.popCompleted && !frame.noPop)
+//@              ==> len(pushes) == iter(len(pushes)) + 1 && pushes[len(pushes) - 1].bar == b && !pushes[len(pushes) - 1].sync && popCount == iter(popCount)
+//@   loop 1   ensures successor@C17,C05,C06: frame.shutdown == 1 && iter(has(s.queueBars, now(b)))
+//@              ==> len(pushes) == iter(len(pushes)) + 1 && pushes[len(pushes) - 1].bar == iter(s.queueBars[now(b)]) && pushes[len(pushes) - 1].sync
+//@                  && pushes[len(pushes) - 1].bar.priority == b.priority && !has(s.queueBars, b)
+//@   loop 1   ensures slot@C17: frame.shutdown != 1 ==> mapdom(s.queueBars) == iter(mapdom(s.queueBars)) && mapval(s.queueBars) == iter(mapval(s.queueBars))
+//@   loop 1   ensures toppop@C18,C06,C05: frame.shutdown == 1 && !iter(has(s.queueBars, now(b))) && s.popCompleted && !frame.noPop
+//@              ==> len(pushes) == iter(len(pushes)) + 1 && pushes[len(pushes) - 1].bar == b && !pushes[len(pushes) - 1].sync
+//@                  && b.priority == iter(s.popPriority) && s.popPriority == iter(s.popPriority) + 1
+//@   loop 1   ensures stays@C05: frame.shutdown == 1 && !iter(has(s.queueBars, now(b))) && !(s.popCompleted && !frame.noPop) && !frame.rmOnComplete
+//@              ==> len(pushes) == iter(len(pushes)) + 1 && pushes[len(pushes) - 1].bar == b && !pushes[len(pushes) - 1].sync
+//@   loop 1   ensures removed@C05,C03: frame.shutdown == 1 && !iter(has(s.queueBars, now(b))) && !(s.popCompleted && !frame.noPop) && frame.rmOnComplete
+//@              ==> len(pushes) == iter(len(pushes))
+//@   loop 1   ensures cancel@C03: (frame.shutdown == 1) == (called("Bar.cancel") == iter(called("Bar.cancel")) + 1)
+//@              && (frame.shutdown != 1 ==> called("Bar.cancel") == iter(called("Bar.cancel")))
+//@   loop 1   ensures priority@C06: frame.shutdown != 1 ==> s.popPriority == iter(s.popPriority) && b.priority == iter(now(b).priority)
+//@   loop 1   ensures clip@C04: usedRows == min(len(frame.rows), height - iter(len(rows))) && len(rows) == iter(len(rows)) + usedRows
+//@   loop 1   ensures nopoponkeep@C18: !(frame.shutdown == 2 && s.popCompleted && !frame.noPop) ==> popCount == iter(popCount)
+//@   loop 2   invariant forall(k, 0, len(pushes), pushes[k].bar != nil) && !closed(s.hm)
+//@   loop 3   invariant -1 <= i && i < len(frame.rows) && usedRows >= 0 && len(rows) <= height
+//@   loop 3   invariant len(rows) == entry(3, len(rows)) + usedRows && usedRows == min(len(frame.rows) - 1 - i, height - entry(3, len(rows)))
+//@   loop 3   invariant frame == entry(3, frame) && frame != nil && frame.rows == entry(3, frame.rows) && b == entry(3, b)
+//@   loop 3   invariant len(pushes) == entry(3, len(pushes)) && forall(k, 0, len(pushes), pushes[k].bar != nil) && pushes == entry(3, pushes)
+//@   loop 3   decreases i + 1
+//@   loop 4   invariant forall(k, 0, len(pushes), pushes[k].bar != nil) && !closed(s.hm) && pushes == entry(4, pushes)
+//@   loop 4   invariant called("(heapManager).push") == entry(4, called("(heapManager).push")) + rangeindex + 1
+//@   loop 4   invariant called("(*Writer).Flush") == old(called("(*Writer).Flush")) && len(rows) == entry(4, len(rows)) && popCount == entry(4, popCount) && rows == entry(4, rows)
+//@   loop 4   ensures fifo@C05: calledWith("(heapManager).push", 1) == p.bar && calledWith("(heapManager).push", 2) == p.sync && p == pushes[rangeindex]
+//@   loop 5   invariant -1 <= i && i < len(rows) && called("(*Writer).Flush") == old(called("(*Writer).Flush"))
+//@   loop 5   invariant called("(heapManager).push") == entry(5, called("(heapManager).push")) && popCount == entry(5, popCount) && rows == entry(5, rows)
+//@   loop 5   ensures whole@C13,C04: written(cw.Buffer) == iter(written(now(cw.Buffer))) + iter(content(now(rows[i + 1])))
+//@   loop 5   decreases i + 1
+//@   ensures  flushed@C04,C18,C13: result == nil ==> called("(*Writer).Flush") == old(called("(*Writer).Flush")) + 1 && calledWith("(*Writer).Flush", 1) == len(rows) - popCount
+//@   ensures  allpushed@C05: result == nil ==> called("(heapManager).push") == old(called("(heapManager).push")) + len(pushes)
+//@   ensures  errdrop@C15: closed(s.iterDrop) ==> result != nil && called("(*Writer).Flush") == old(called("(*Writer).Flush"))
+//@   ensures  once@C15,C02: result == nil ==> !closed(s.iterDrop)
+//@   ensures  open@C02: !closed(s.hm)
+
+// Options: what a container option / bar option may write (checked for every built-in option
+// by the static obligation functype-frame; assumed for user-written options).
+//@ functype ContainerOption
+//@   props    C02 C05 C04
+//@   params   s
+//@   modifies pState.uwg, pState.reqWidth, pState.hmQueueLen, pState.refreshRate, pState.manualRC, pState.delayRC, pState.shutdownNotifier, pState.output, pState.debugOut, pState.autoRefresh, pState.popCompleted
+
+//@ func NewWithContext
+//@   props    C02 C05 C04
+//@   loop 1   invariant s != nil && s.iterDrop != nil && s.renderReq != nil && s.queueBars != nil && s.ctx != nil && fresh(s)
